@@ -126,6 +126,10 @@ impl<'me, I: Interner> SolveDatabase<I> for Solver<'me, I> {
     fn max_size(&self) -> usize {
         self.context.max_size()
     }
+
+    fn set_interrupted(&mut self) {
+        self.context.set_interrupted()
+    }
 }
 
 impl<I: Interner> chalk_solve::Solver<I> for RecursiveSolver<I> {
